@@ -29,9 +29,10 @@ BoundOk(e, s) == LET V == Verts(e.g) IN
 ScanOk(e, s) ==
    LET want == ScanInto(s.dest, CanonDeep(e.g))
        wsrid == IF e.pkg = "wkb" THEN 0 ELSE IF s.fr = "prefix" /\ e.srid = 0 THEN e.psrid ELSE e.srid IN
-   IF s.dest = "Bound" THEN BoundOk(e, s) /\ s.srid = wsrid
-   ELSE IF want.ok THEN s.ok = 1 /\ s.v = want.v /\ s.srid = wsrid /\ s.valid = 1
-   ELSE s.ok = 0 /\ s.wrong = 1
+   /\ s.reuse = 1             \* a scanner and destination that served earlier rows answer like fresh ones
+   /\ (IF s.dest = "Bound" THEN BoundOk(e, s) /\ s.srid = wsrid
+       ELSE IF want.ok THEN s.ok = 1 /\ s.v = want.v /\ s.srid = wsrid /\ s.valid = 1
+       ELSE s.ok = 0 /\ s.wrong = 1)
 Ok(e) ==
    /\ e.k = "wkb"
    \* a nil geometry - also a typed nil slice at the top level - encodes to no bytes
